@@ -98,7 +98,13 @@ func choiceCost(p *Point, k int) (int, int) {
 				return 0, 1
 			}
 		}
-		return 0, 0 // only the environment can move
+		// only the environment can move: the first event is the default continuation and free; preferring another
+		// one (e.g. one more tick of a ticker instead of the pending cancellation) is a deviation, which also keeps
+		// the execution space of periodic timers finite
+		if k == 0 {
+			return 0, 0
+		}
+		return 0, 1
 	}
 	if c.Kind == OpSleep {
 		// letting a sleeper continue while another thread could run is a deviation (time running fast)
